@@ -77,7 +77,7 @@ where
         )?;
         writeln!(writer, "        Self {{")?;
         writeln!(writer, "            client: reqwest::Client::new(),")?;
-        writeln!(writer, "            location: \"{}\".to_string(),", self.location)?;
+        writeln!(writer, "            location: {:?}.to_string(),", self.location.as_str())?;
         writeln!(writer, "            credentials,")?;
         writeln!(writer, "        }}")?;
         writeln!(writer, "    }}")?;
